@@ -5,6 +5,7 @@ use std::collections::VecDeque;
 verus! {
 //@nopub
 //@include bits.rs
+//@include ioerr.rs
 //@include error.rs
 
 // ---- shims: std calls Verus has no specification for (assumed std semantics) ----
